@@ -66,7 +66,7 @@ func c13Run(ref treeRef) (*eng.Fail, int) {
 
 func init() {
 	checks["C13"] = eng.Check{
-		Rule: "Possibilities(e) on every tree of the C09 spaces (conditionals as operands, branches, conditions and memory-load addresses; up to 2 internal nodes quick, 3 thorough): every alternative has e's width and no Less; under each of 9 valuations some alternative has e's value. Non-trivial = tree with more than one alternative.",
+		Rule:        "Possibilities(e) on every tree of the C09 spaces (conditionals as operands, branches, conditions and memory-load addresses; up to 2 internal nodes quick, 3 thorough): every alternative has e's width and no Less; under each of 9 valuations some alternative has e's value. Non-trivial = tree with more than one alternative.",
 		Assumptions: []string{"coverage of outcomes is decided on 9 valuations chosen so that each Less takes both branches somewhere"},
 		Run: func(r *eng.Run) {
 			names := []string{"leaf", "t1", "t2", "gadget"}
@@ -92,6 +92,7 @@ func init() {
 			})
 		},
 		Replay: func(r *eng.Run, raw json.RawMessage) *eng.Fail {
+			resetSpaces() // fresh, uncorrupted trees
 			var ref treeRef
 			if err := json.Unmarshal(raw, &ref); err != nil {
 				panic(err)
